@@ -618,3 +618,38 @@ func runOverlayTest(p *Prog, repo, pkgPath, testSrc string) (string, error) {
 }
 
 var _ = sort.Strings
+
+// runOverlayTestNamed injects a test file into a package directory (module-relative)
+// and runs the named tests.
+func runOverlayTestNamed(repo, rel, testSrc, runPat string, timeoutS int) (string, error) {
+	dir, err := os.MkdirTemp("", "govc-demo-")
+	if err != nil {
+		return "", err
+	}
+	defer os.RemoveAll(dir)
+	if rel == "." {
+		rel = ""
+	}
+	testFile := filepath.Join(dir, "zz_govc_demo_test.go")
+	if err := os.WriteFile(testFile, []byte(testSrc), 0o644); err != nil {
+		return "", err
+	}
+	ov := map[string]map[string]string{"Replace": {filepath.Join(repo, rel, "zz_govc_demo_test.go"): testFile}}
+	ob, _ := json.Marshal(ov)
+	ovFile := filepath.Join(dir, "overlay.json")
+	_ = os.WriteFile(ovFile, ob, 0o644)
+	ctx, cancel := context.WithTimeout(context.Background(), time.Duration(timeoutS+30)*time.Second)
+	defer cancel()
+	target := "./" + rel
+	if rel == "" {
+		target = "."
+	}
+	cmd := exec.CommandContext(ctx, "bash", "-c", fmt.Sprintf("ulimit -v 8000000; exec go test -overlay %s -vet=off -timeout %ds -count=1 -run '%s' %s", ovFile, timeoutS, runPat, target))
+	cmd.Dir = repo
+	cmd.Env = append(os.Environ(), "GOFLAGS=-mod=mod", "GOPROXY=off", "GOSUMDB=off", "GOTOOLCHAIN=local")
+	var out bytes.Buffer
+	cmd.Stdout = &out
+	cmd.Stderr = &out
+	err = cmd.Run()
+	return out.String(), err
+}
